@@ -111,6 +111,19 @@ func (w *World) verifyFunction(c *Contract) (res *FuncResult) {
 	vc.obls = append(vc.obls, &Obligation{Name: fn.String() + "#cover.return", Kind: "cover", Fn: fn.String(), Props: c.Raw.Props,
 		Prefix: len(vc.script), Cond: out.cond, Goal: "false", Expect: "sat"})
 	_ = results
+	// ghost assignments run at every normal return
+	hasG := false
+	for _, cl := range c.Clauses {
+		hasG = hasG || cl.Raw.Kind == "gassign"
+	}
+	if hasG {
+		for i := range fr.retVals {
+			rs := &fr.retVals[i]
+			rs.st = rs.st.clone()
+			vc.applyGassigns(c, vc.contractEnv(c, args, rs.vals, rs.st, vc.entry), rs.st)
+		}
+		vc.applyGassigns(c, vc.contractEnv(c, args, results, out, vc.entry), out)
+	}
 	// postconditions: one obligation per clause, one sub-goal per return site
 	for _, cl := range c.Clauses {
 		if cl.Raw.Kind != "ensures" {
@@ -314,6 +327,14 @@ func indexSortOf(arr string) string {
 		}
 	}
 	return s
+}
+
+// valueSortOf: the element sort of "(Array IDX VAL)".
+func valueSortOf(arr string) string {
+	idx := indexSortOf(arr)
+	s := strings.TrimPrefix(arr, "(Array ")
+	s = strings.TrimSpace(strings.TrimPrefix(s, idx))
+	return strings.TrimSuffix(s, ")")
 }
 
 // ---------------------------------------------------------------------------
